@@ -32,8 +32,9 @@
        special forms) and C01_cbor_typed_reads_leaves_partial / C01_binc_typed_reads_leaves_partial
        (TryNil, CheckBreak, DecodeBool, DecodeStringAsBytes incl. cbor chunks and binc symbols --
        stateful --, DecodeBytes, DecodeTime, ReadArrayStart / ReadMapStart against byte-level
-       reader models C01/TypedRd.v).  Still transcribed there: float32 destinations, cbor tag-1
-       times, the element walk between a container head and its end;
+       reader models C01/TypedRd.v); C01_typed_reads_float32 (all four binary formats): a float32
+       item into a float32 destination.  Still transcribed there: cbor tag-1 times, the element
+       walk between a container head and its end;
      - reflection / unsafe value access (a Go value is a [gv] tree), the resolved
        struct field list (C16), and everything Generic/Dec.v lists as not modelled:
        merge into non-zero destinations (C19), interface slots (C15), extensions /
@@ -43,7 +44,7 @@
 From Coq Require Import List NArith ZArith Bool Permutation.
 From Verif Require Import Base.Outcome Gen.Consts Wire.Item Generic.Types Generic.Enc Generic.Dec.
 From Verif Require Import C01.ComposeFloat C01.ComposeSimple C01.ComposeMsgpack C01.ComposeCbor C01.ComposeCborTime C01.ComposeBinc C01.ComposeTyped.
-From Verif Require Import C01.TypedRd C01.TypedCbor C01.TypedBinc.
+From Verif Require Import C01.TypedRd C01.TypedCbor C01.TypedBinc C01.TypedF32.
 From Verif Require Wire.Simple Wire.Msgpack Wire.Cbor C10.CborConv Wire.Binc Wire.BincProofs Wire.CborTime C07.Model.
 Import ListNotations.
 
@@ -569,6 +570,44 @@ Theorem C01_binc_typed_reads_leaves_partial : forall (e : Binc.eopts) (d : Binc.
      /\ wn (W_binc e d) (IMap l) = IMap (map (fun kv => (wnk (W_binc e d) (fst kv), wn (W_binc e d) (snd kv))) l)).
 Proof. exact binc_typed_reads_leaves. Qed.
 Print Assumptions C01_binc_typed_reads_leaves_partial.
+
+(* float32 DESTINATIONS, the four binary formats: DecodeFloat32 = float32(chkOvf.Float32V(DecodeFloat64())) on the
+   bytes of a float32 item (C07's [narrow_f32]: the translated overflow check, then CVTSD2SS round-to-nearest) returns
+   what the driver record's rd_f32 returns on the normalised item: the float32 itself, bit for bit (quiet NaN
+   payloads included; binc: its single zero / single NaN).  Leaf premise: no signalling NaN (it comes back quiet),
+   simple: no zero under EncZeroValuesAsNil.  Not covered: a float64 item into a float32 destination (inexact
+   narrowing is C07's; rd_f32 abstains). *)
+Theorem C01_typed_reads_float32 :
+  (forall Of D O b rest, (b < 2 ^ 32)%N -> leaf_ok (W_msgpack Of D) (IF32 b) = true ->
+     C07.Model.decode C07.Model.msgpack C07.Model.KFloat32 (zb (Msgpack.enc Of (IF32 b) ++ rest))
+       = typed (W_msgpack Of D) O C07.Model.KFloat32 (wn (W_msgpack Of D) (IF32 b))) /\
+  (forall o D O key b rest, (b < 2 ^ 32)%N -> leaf_ok (W_simple o D) (IF32 b) = true ->
+     C07.Model.decode C07.Model.simple C07.Model.KFloat32 (zb (Simple.enc o key (IF32 b) ++ rest))
+       = typed (W_simple o D) O C07.Model.KFloat32 (wn (W_simple o D) (IF32 b))) /\
+  (forall Oc D O b rest, (b < 2 ^ 32)%N -> leaf_ok (W_cbor Oc D) (IF32 b) = true ->
+     C07.Model.decode C07.Model.cbor C07.Model.KFloat32 (zb (Cbor.enc Oc (IF32 b) ++ rest))
+       = typed (W_cbor Oc D) O C07.Model.KFloat32 (wn (W_cbor Oc D) (IF32 b))) /\
+  (forall e d O key est b rest, (b < 2 ^ 32)%N ->
+     C07.Model.decode C07.Model.binc C07.Model.KFloat32 (zb (fst (Binc.enc e key (IF32 b) est) ++ rest))
+       = typed (W_binc e d) O C07.Model.KFloat32 (wn (W_binc e d) (IF32 b))).
+Proof. exact typed_reads_f32. Qed.
+Print Assumptions C01_typed_reads_float32.
+
+(* a quiet NaN with a payload, 1.5 under cbor OptimumSize (written as a half float), binc's canonical NaN *)
+Example C01_typed_reads_float32_nonvacuous :
+  let Oc := Cbor.mkeo false false false true in let Dc := Cbor.mkdo false false false 0 in
+  C07.Model.decode C07.Model.cbor C07.Model.KFloat32 (zb (Cbor.enc Oc (IF32 2143289349%N) ++ [7]%N)) = Ok 2143289349%Z /\
+  typed (W_cbor Oc Dc) cx_O1 C07.Model.KFloat32 (wn (W_cbor Oc Dc) (IF32 2143289349%N)) = Ok 2143289349%Z /\
+  Cbor.enc Oc (IF32 1069547520%N) = [249; 62; 0]%N /\
+  C07.Model.decode C07.Model.cbor C07.Model.KFloat32 (zb (Cbor.enc Oc (IF32 1069547520%N) ++ [7]%N)) = Ok 1069547520%Z /\
+  C07.Model.decode C07.Model.binc C07.Model.KFloat32
+    (zb (fst (Binc.enc (Binc.Build_eopts false false) false (IF32 2143289349%N) Binc.estate0) ++ [7]%N)) = Ok 2143289344%Z /\
+  typed (W_binc (Binc.Build_eopts false false) (Binc.Build_dopts 1024 false false)) cx_O1 C07.Model.KFloat32
+        (wn (W_binc (Binc.Build_eopts false false) (Binc.Build_dopts 1024 false false)) (IF32 2143289349%N)) = Ok 2143289344%Z /\
+  (* a signalling NaN is outside the leaf premise: it comes back quiet *)
+  leaf_ok (W_cbor Oc Dc) (IF32 2139095041%N) = false /\
+  C07.Model.decode C07.Model.cbor C07.Model.KFloat32 (zb (Cbor.enc Oc (IF32 2139095041%N))) = Ok 2143289345%Z.
+Proof. cbv zeta. repeat apply conj; vm_compute; reflexivity. Qed.
 
 (* cbor typed reads, both sides computed: OptimumSize narrows 1.5 to a half float, an integral float64 to a
    float32; 2^64-1 into int64 overflows; -1 into uint8 is refused; a chunked text string; an indefinite array head;
